@@ -5,6 +5,10 @@
 (* whether its hypothesis holds for the basis or one of its symmetric      *)
 (* images.  Invariants: the reported set is invariant under the eight      *)
 (* symmetries, and depends only on the set (the machine has no order).     *)
+(* A basis may be a redundant presentation (elements containing other      *)
+(* elements): the hypotheses speak about every element given, so such a    *)
+(* presentation can lose strategies of its minimal part but never gain one *)
+(* (RedundantNeverGrows); the state also carries the minimal part.         *)
 (***************************************************************************)
 EXTENDS Strategies, Json
 CONSTANTS Inputs
@@ -16,7 +20,14 @@ Report(B) == {s \in StrategyNames : Applies(s, B)}
 SymmetryInvariant == \A g \in DNames : Report(DSymSet(g, basis)) = Report(basis)
 \* adding a required pattern of a strategy to the basis keeps the strategy applicable
 AddingNeededKeeps == \A s \in StrategyNames : Applies(s, basis) => \A p \in Needed(s) : AppliesTo(s, basis) => AppliesTo(s, basis \cup {p})
+\* a redundant presentation never has a strategy that its minimal presentation lacks, and required patterns
+\* are excluded from the class of the one iff from the class of the other
+RedundantNeverGrows == /\ Report(basis) \subseteq Report(MinimalPart(basis))
+                       /\ \A p \in UNION {Needed(s) : s \in StrategyNames} : InClass(p, basis) <=> InClass(p, MinimalPart(basis))
+\* repeating the question for an image gives the answer for the basis (the orbit is closed)
+ImagesOfImages == \A h \in {"inv", "rev"} : Report(DSymSet(h, DSymSet("r1", basis))) = Report(basis)
 EmitState == PrintT(ToJson([basis |-> basis, report |-> Report(basis),
                             undefined |-> {s \in StrategyNames : SomeImageUndefined(s, basis)},
+                            minimal |-> DSortedTuple(MinimalPart(basis)),
                             syms |-> {DSortedTuple(DSymSet(g, basis)) : g \in DNames}]))
 =============================================================================
